@@ -752,3 +752,247 @@ func isSortLessIndex(v, s ssa.Value) bool {
 	}
 	return n > 0
 }
+
+// c16MapResultsMade: the parse functions that hand a map to the flag helpers
+// (which then assign into it on the next Set) return, with a nil error, only
+// maps created with make / reflect.MakeMap*: a nil map would make the next
+// assignment panic ("assignment to entry in nil map").
+func c16MapResultsMade(c *Ctx) {
+	w := c.W
+	n := 0
+	for _, f := range w.funcsIn("parse") {
+		if f.Parent() != nil || f.Signature.Results().Len() != 2 || len(f.Blocks) == 0 {
+			continue
+		}
+		rt := f.Signature.Results().At(0).Type()
+		_, isMap := rt.Underlying().(*types.Map)
+		isRV := types.TypeString(rt, nil) == "reflect.Value" && strings.Contains(strings.ToLower(f.Name()), "map")
+		if !isMap && !isRV {
+			continue
+		}
+		n++
+		c.analysed(relName(f))
+		okAll := true
+		var badPos token.Pos
+		for _, r := range returnsOf(f) {
+			rv := retVals(r)
+			if !isNilConst(rv[1]) {
+				continue
+			}
+			made := derivesAll(rv[0], func(x ssa.Value) bool {
+				switch y := x.(type) {
+				case *ssa.MakeMap:
+					return true
+				case *ssa.Call:
+					return strings.HasPrefix(calleeFullName(y), "reflect.MakeMap")
+				}
+				return false
+			}, nil)
+			if !made {
+				okAll = false
+				badPos = r.Pos()
+			}
+		}
+		if !badPos.IsValid() {
+			badPos = f.Pos()
+		}
+		c.check(okAll, "map-results-made", relName(f), badPos, "every successful return is a make-built map", "a successful return hands back a map that is not make-built (nil for some input): the flag helpers assign into the parsed map on the next Set and would panic with 'assignment to entry in nil map'")
+	}
+	if n == 0 {
+		c.bad("map-results-made", "parse", 0, "no map-returning parse function found")
+	}
+}
+
+// c16ValidOnSuccess: a parse function returning (reflect.Value, error) never
+// returns the zero reflect.Value together with a nil error: callers call
+// Type()/Elem()/Interface() on the result, which panics on the zero Value. A
+// zero Value flowing into a successful return (a switch arm that boxes nothing)
+// is accepted only if its path is infeasible for every reflect.Kind.
+func c16ValidOnSuccess(c *Ctx) {
+	w := c.W
+	n := 0
+	for _, f := range w.funcsIn("parse") {
+		if f.Parent() != nil || len(f.Blocks) == 0 || f.Signature.Results().Len() != 2 || types.TypeString(f.Signature.Results().At(0).Type(), nil) != "reflect.Value" {
+			continue
+		}
+		n++
+		c.analysed(relName(f))
+		isZeroVal := func(v ssa.Value) bool {
+			cst, ok := v.(*ssa.Const)
+			return ok && cst.Value == nil && types.TypeString(cst.Type(), nil) == "reflect.Value"
+		}
+		pb := &predBuilder{}
+		bad := ""
+		var badPos token.Pos
+		checkEdge := func(p, b *ssa.BasicBlock, pos token.Pos) {
+			var g formula
+			if b == nil {
+				g = pb.pathCond(f.Blocks[0], p)
+			} else {
+				g = pb.pathCondEdge(f.Blocks[0], p, b)
+			}
+			fb, fi := map[string]bool{}, map[string]bool{}
+			atomsOf(g, fb, fi)
+			doms := map[string][]int64{}
+			for a := range fi {
+				if strings.Contains(a, ".Kind(") {
+					doms[a] = allKinds
+					// an unexported function only sees the kinds its call sites let through
+					for _, prm := range f.Params {
+						if a == "(reflect.Type).Kind("+prm.Name()+")" && !isAPI(f) {
+							if ks := callSiteTypeKinds(w, f, prm); ks != nil {
+								doms[a] = ks
+							}
+						}
+					}
+				}
+			}
+			_, counter := forAll(g, doms, func(e env, fv bool) bool { return !fv })
+			if counter != "" {
+				bad = counter
+				badPos = pos
+			}
+		}
+		for _, r := range returnsOf(f) {
+			rv := retVals(r)
+			if !isNilConst(rv[1]) {
+				continue
+			}
+			if isZeroVal(rv[0]) {
+				checkEdge(r.Block(), nil, r.Pos())
+				continue
+			}
+			seen := map[*ssa.Phi]bool{}
+			var walk func(ph *ssa.Phi)
+			walk = func(ph *ssa.Phi) {
+				if seen[ph] {
+					return
+				}
+				seen[ph] = true
+				for ei, e := range ph.Edges {
+					if isZeroVal(e) {
+						checkEdge(ph.Block().Preds[ei], ph.Block(), r.Pos())
+					} else if inner, ok := e.(*ssa.Phi); ok {
+						walk(inner)
+					}
+				}
+			}
+			if ph, ok := rv[0].(*ssa.Phi); ok {
+				walk(ph)
+			}
+		}
+		if !badPos.IsValid() {
+			badPos = f.Pos()
+		}
+		c.check(bad == "", "valid-on-success", relName(f), badPos, "no zero reflect.Value can be returned with a nil error (for every reflect.Kind)", "the zero reflect.Value is returned together with a nil error (callers call Type/Elem/Interface on it and panic): "+bad)
+	}
+	if n == 0 {
+		c.bad("valid-on-success", "parse", 0, "no (reflect.Value, error) function found in parse")
+	}
+}
+
+// callSiteTypeKinds: for an unexported function f and its reflect.Type
+// parameter prm, the union over all static call sites of the kinds under whose
+// constant `switch arg.Kind()` arm the call sits. nil when some call site is
+// not under such a switch (or f has no static callers / escapes).
+func callSiteTypeKinds(w *World, f *ssa.Function, prm *ssa.Parameter) []int64 {
+	cg := w.callGraph()
+	if cg.escapes[origin(f)] {
+		return nil
+	}
+	pi := -1
+	for i, p := range f.Params {
+		if p == prm {
+			pi = i
+		}
+	}
+	union := map[int64]bool{}
+	n := 0
+	for _, e := range cg.in[origin(f)] {
+		if e.Site == nil {
+			continue
+		}
+		n++
+		arg := e.Site.Common().Args[pi]
+		subj, ks := kindsAtSwitch(e.Site.(ssa.Instruction).Block())
+		if subj == nil {
+			return nil
+		}
+		kc, ok := subj.(*ssa.Call)
+		if !ok || !strings.HasSuffix(calleeFullName(kc), ".Kind") {
+			return nil
+		}
+		var recv ssa.Value
+		if kc.Call.IsInvoke() {
+			recv = kc.Call.Value
+		} else if len(kc.Call.Args) > 0 {
+			recv = kc.Call.Args[0]
+		}
+		if recv != arg {
+			return nil
+		}
+		for k := range ks {
+			union[k] = true
+		}
+	}
+	if n == 0 {
+		return nil
+	}
+	var out []int64
+	for _, k := range allKinds {
+		if union[k] {
+			out = append(out, k)
+		}
+	}
+	return out
+}
+
+// c16OverflowAfterConvertible: reflect's OverflowInt/Uint/Float/Complex panic
+// on a receiver of another kind class. The standard-library flag source calls
+// its overflow helper with a target built as reflect.New(T).Elem(); that call
+// must be dominated by a successful `value.Type().ConvertibleTo(T)` test for
+// the same T (a non-numeric T such as a pointer type is rejected there with an
+// error before the helper looks at it).
+func c16OverflowAfterConvertible(c *Ctx) {
+	w := c.W
+	wo := w.fn("sources/flag", "willOverflow")
+	if !c.need(wo != nil, "sources/flag.willOverflow") {
+		return
+	}
+	n := 0
+	for _, f := range w.funcsIn("sources/flag") {
+		for _, ci := range callsToFn(f, wo) {
+			call := ci.(*ssa.Call)
+			n++
+			c.analysed(relName(f))
+			target := call.Call.Args[1]
+			// target = Elem(New(T))
+			var tExpr ssa.Value
+			if el, ok := target.(*ssa.Call); ok && calleeFullName(el) == "(reflect.Value).Elem" {
+				if nw, ok := el.Call.Args[0].(*ssa.Call); ok && calleeFullName(nw) == "reflect.New" {
+					tExpr = nw.Call.Args[0]
+				}
+			}
+			okG := false
+			if tExpr != nil {
+				for _, ec := range condsDominating(call.Block()) {
+					cc, ok := ec.Cond.(*ssa.Call)
+					if !ok || !ec.Val || !strings.HasSuffix(calleeFullName(cc), ".ConvertibleTo") {
+						continue
+					}
+					args := callArgs(cc)
+					if len(args) == 2 && canon(args[1]) == canon(tExpr) {
+						// receiver: Type() of the value handed to the helper
+						if ty, ok := args[0].(*ssa.Call); ok && calleeFullName(ty) == "(reflect.Value).Type" && sameValue(ty.Call.Args[0], call.Call.Args[0]) {
+							okG = true
+						}
+					}
+				}
+			}
+			c.check(okG, "overflow-after-convertible", relName(f)+"#willOverflow", call.Pos(), "the overflow helper is only reached after value.Type().ConvertibleTo(T) held for the target's type T", "the overflow helper is called before (or without) the convertibility test for the target type: for a non-numeric target such as a pointer-to-pointer field reflect's Overflow* panics instead of the source returning 'not convertible'")
+		}
+	}
+	if n == 0 {
+		c.bad("overflow-after-convertible", "flag", wo.Pos(), "willOverflow is never called")
+	}
+}
